@@ -168,9 +168,10 @@ class NaiveBayes(BayesianNetwork):
         """
         independencies = Independencies()
         for variable in [variables] if isinstance(variables, str) else variables:
-            if variable != self.dependent:
+            others = set(self.features) - {variable}
+            if variable != self.dependent and others:
                 independencies.add_assertions(
-                    [variable, list(set(self.features) - set(variable)), self.dependent]
+                    [variable, list(others), self.dependent]
                 )
         return independencies
 
